@@ -74,9 +74,16 @@ package retry
 //@   loop 4 invariant len(usedOperators) == rangeidx4 - @occ(arr(groupMembers), leftOperator, rangeidx4) - @occ(arr(groupMembers), middleOperator, rangeidx4) - @occ(arr(groupMembers), rightOperator, rangeidx4)
 //@   loop 4 invariant forall x chain.Address :: @occ(arr(usedOperators), x, len(usedOperators)) == ite(x == leftOperator || x == middleOperator || x == rightOperator, 0, @occ(arr(groupMembers), x, rangeidx4))
 
+// Key generation retries index one fixed shuffle: the generator handed to the
+// three exclusion phases is seeded with the seed alone (the retry number only
+// selects the position), so the exclusions enumerated are distinct.
+// (rngSeed(r): the seed of a generator in the engine's library model of math/rand.)
 //@ func EvaluateRetryParticipantsForKeyGeneration
 //@   property C09
 //@   deterministic
+//@   assert call:excludeSingleOperator : [single-exclusions-are-drawn-from-the-generator-seeded-with-the-seed-alone] rngSeed(arg0) == seed
+//@   assert call:excludeOperatorPairs : [pair-exclusions-are-drawn-from-the-same-generator] rngSeed(arg0) == seed
+//@   assert call:excludeOperatorTriplets : [triplet-exclusions-are-drawn-from-the-same-generator] rngSeed(arg0) == seed
 //@   requires len(groupMembers) <= 255 && retryCount <= 1000000000 && retryParticipantsCount <= 1000000000
 //@   ensures [keeps-at-least-the-requested-seats] err == nil ==> len(result0) >= retryParticipantsCount
 //@   ensures [keeps-or-drops-each-operators-seats-together] err == nil ==> (forall x chain.Address :: @occ(arr(result0), x, len(result0)) == 0 || @occ(arr(result0), x, len(result0)) == @occ(arr(groupMembers), x, len(groupMembers)))
